@@ -1,6 +1,6 @@
 import Qats.Model.Dist
 import Qats.Lemmas.RealOps
-import Qats.Lemmas.SNOps
+import Qats.Lemmas.RealOpsSimp
 import Mathlib.Tactic
 import Mathlib.Algebra.BigOperators.Ring.List
 /-!
@@ -8,7 +8,7 @@ import Mathlib.Algebra.BigOperators.Ring.List
 `x ↦ a·x + b` and `x ↦ -x`.
 -/
 namespace Qats.Est
-open Qats Qats.Dist Qats.SN
+open Qats Qats.Dist
 
 theorem foldl_add_eq (l : List ℝ) (acc : ℝ) : l.foldl (· + ·) acc = acc + l.sum := by
   induction l generalizing acc with
